@@ -220,9 +220,9 @@ func (f *fnnCtx) recvStoresFNN(fn *ssa.Function) bool {
 func runC18(c *Ctx) {
 	P := c.P
 	c.Explanation = "Decides: (R-NONNIL-FRESH) every value returned by New, NewSize, Clone, Intersect, Range, Keys and Values is a map allocated inside the call and provably non-nil — a make; maps.Clone(x) only under the fact x != nil; the result of a receiver-returning helper applied to such a map; or the content of a local cell that only ever receives such maps (including through (*Set).Add/AddAll, whose stores through the receiver are summarised) — and is never a parameter, so results cannot alias arguments; AddAll on a nil receiver stores a clone, not its argument. (R-NIL-LAZY) in pointer-receiver methods every update of *s is preceded on all paths by *s != nil or by storing a fresh map. Does NOT decide the set-theoretic answers of the predicates, Pop, or Slice."
-	c.rule("R-NONNIL-FRESH", 9, "returned sets are fresh, non-nil, and never a parameter; stores through a *Set receiver store fresh non-nil maps")
-	c.rule("R-CARD-SHORTCUT", 2, "a branch on len(a) vs len(b) that returns a constant answer compares two sets, never a list (repeats) with a set")
-	c.rule("R-NIL-LAZY", 3, "every map update of *s (directly or via a receiver-updating helper) is preceded on all paths by *s != nil or a store of a fresh map")
+	c.rule("R-NONNIL-FRESH", 7, "returned sets are fresh, non-nil, and never a parameter; stores through a *Set receiver store fresh non-nil maps")
+	c.rule("R-CARD-SHORTCUT", 1, "a branch on len(a) vs len(b) that returns a constant answer compares two sets, never a list (repeats) with a set")
+	c.rule("R-NIL-LAZY", 2, "every map update of *s (directly or via a receiver-updating helper) is preceded on all paths by *s != nil or a store of a fresh map")
 	setT := P.Named("mapset", "Set")
 	if setT == nil {
 		c.undecided("ANCHOR", "mapset.Set", 0, "not found")
